@@ -311,7 +311,6 @@ impl Array4 {
         mut cursor: SketchSlice,
         cur_min: u8,
         lg_config_k: u8,
-        compact: bool,
         ooo: bool,
     ) -> Result<Self, Error> {
         let num_bytes = 1 << (lg_config_k - 1); // k/2 bytes for 4-bit packing
@@ -333,13 +332,11 @@ impl Array4 {
 
         // Read packed 4-bit byte array
         let mut data = vec![0u8; num_bytes];
-        if !compact {
-            cursor
-                .read_exact(&mut data)
-                .map_err(insufficient_data("data"))?;
-        } else {
-            cursor.advance(num_bytes as u64);
-        }
+        // The register block is present whether or not the COMPACT flag is set (for
+        // HLL arrays the flag only concerns the form of the Hll4 exception list).
+        cursor
+            .read_exact(&mut data)
+            .map_err(insufficient_data("data"))?;
 
         // Read aux map if present
         let mut aux_map = None;
